@@ -1569,6 +1569,10 @@ impl Server {
         .inscription_number;
 
       if let Some(delegate) = inscription.delegate() {
+        if settings.is_hidden(delegate) {
+          return Ok(PreviewUnknownHtml.into_response());
+        }
+
         inscription = index
           .get_inscription_by_id(delegate)?
           .ok_or_not_found(|| format!("delegate {inscription_id}"))?
